@@ -311,7 +311,7 @@ func (c *ctx) file(p *packages.Package, f *ast.File) []edit {
 	for _, imp := range f.Imports {
 		path := strings.Trim(imp.Path.Value, "\"")
 		switch path {
-		case "unsafe", "reflect", "crypto/rand", "C", "os", "os/signal", "runtime", "syscall", "net", "net/http", "context":
+		case "unsafe", "reflect", "crypto/rand", "C", "os/signal", "syscall", "net", "net/http", "hash/maphash", "weak", "runtime/debug", "unique":
 			c.seams.Unowned = append(c.seams.Unowned, PosNote{Kind: "import " + path, Pos: c.pos(imp.Pos())})
 		}
 	}
@@ -455,11 +455,7 @@ func (c *ctx) file(p *packages.Package, f *ast.File) []edit {
 					}
 				}
 			}
-			if hasDefault {
-				c.seams.Sync = append(c.seams.Sync, PosNote{Kind: "select with default (non-blocking, left real)", Pos: c.pos(t.Pos()), Func: s.curFunc()})
-			} else {
-				c.seams.Unowned = append(c.seams.Unowned, PosNote{Kind: "select without default (can block outside the simulator)", Pos: c.pos(t.Pos()), Func: s.curFunc()})
-			}
+			s.selectStmt(t, hasDefault)
 		case *ast.GoStmt:
 			s.goStmt(t)
 		case *ast.CallExpr:
@@ -616,8 +612,16 @@ func (s *fileState) pkgOf(x ast.Expr) (string, string, bool) {
 	return pn.Imported().Path(), id.Name, true
 }
 
-var timeRepl = map[string]string{"Now": "Now", "Since": "Since", "Until": "Until", "Sleep": "Sleep"}
-var timeUnowned = map[string]bool{"After": true, "Tick": true, "NewTimer": true, "NewTicker": true, "AfterFunc": true}
+var timeRepl = map[string]string{"Now": "Now", "Since": "Since", "Until": "Until", "Sleep": "Sleep",
+	"After": "After", "Tick": "TimeTick", "NewTimer": "NewTimer", "NewTicker": "NewTicker", "AfterFunc": "AfterFunc"}
+var timeUnowned = map[string]bool{}
+var ctxRepl = map[string]string{"WithCancel": "CtxWithCancel", "WithTimeout": "CtxWithTimeout", "WithDeadline": "CtxWithDeadline"}
+var ctxUnowned = map[string]bool{"WithCancelCause": true, "WithTimeoutCause": true, "WithDeadlineCause": true, "AfterFunc": true, "WithoutCancel": true}
+var envRepl = map[string]string{"runtime.NumCPU": "NumCPU", "runtime.GOMAXPROCS": "GOMAXPROCS", "runtime.NumGoroutine": "NumGoroutine",
+	"os.Getpid": "Getpid", "os.Hostname": "Hostname", "os.Getenv": "Getenv", "os.LookupEnv": "LookupEnv"}
+var envUnowned = map[string]bool{"os.Environ": true, "os.Args": true, "os.Getwd": true, "os.Getuid": true, "os.Getppid": true, "os.Executable": true, "os.UserHomeDir": true,
+	"os.ReadFile": true, "os.Open": true, "os.Stat": true, "runtime.ReadMemStats": true, "runtime.SetFinalizer": true, "runtime.GC": true, "runtime.Gosched": true,
+	"runtime.Caller": true, "runtime.Callers": true, "runtime.Stack": true, "runtime.KeepAlive": false, "runtime.AddCleanup": true, "runtime.LockOSThread": true}
 var randRepl = map[string]string{
 	"Int": "RandInt", "Intn": "RandIntn", "Int31": "RandInt31", "Int31n": "RandInt31n", "Int63": "RandInt63", "Int63n": "RandInt63n",
 	"Uint32": "RandUint32", "Uint64": "RandUint64", "Float64": "RandFloat64", "Float32": "RandFloat32", "Perm": "RandPerm",
@@ -672,9 +676,25 @@ func (s *fileState) selector(t *ast.SelectorExpr) bool {
 		}
 		return false
 	case "os", "runtime":
-		switch t.Sel.Name {
-		case "Getenv", "Getpid", "Environ", "Hostname", "NumCPU", "GOMAXPROCS", "NumGoroutine", "LookupEnv", "Args":
+		if r, ok := envRepl[path+"."+t.Sel.Name]; ok {
+			s.replace(t, simrtName+"."+r)
+			s.keep[local] = map[string]string{"os": "Getpid", "runtime": "NumCPU"}[path]
+			c.seams.Clock = append(c.seams.Clock, PosNote{Kind: path + "." + t.Sel.Name, Pos: c.pos(t.Pos()), Func: s.curFunc()})
+			return true
+		}
+		if envUnowned[path+"."+t.Sel.Name] {
 			c.seams.Unowned = append(c.seams.Unowned, PosNote{Kind: path + "." + t.Sel.Name, Pos: c.pos(t.Pos()), Func: s.curFunc()})
+		}
+		return true
+	case "context":
+		if r, ok := ctxRepl[t.Sel.Name]; ok {
+			s.replace(t, simrtName+"."+r)
+			s.keep[local] = "Background"
+			c.seams.Clock = append(c.seams.Clock, PosNote{Kind: "context." + t.Sel.Name, Pos: c.pos(t.Pos()), Func: s.curFunc()})
+			return true
+		}
+		if ctxUnowned[t.Sel.Name] {
+			c.seams.Unowned = append(c.seams.Unowned, PosNote{Kind: "context." + t.Sel.Name, Pos: c.pos(t.Pos()), Func: s.curFunc()})
 		}
 		return true
 	}
@@ -919,7 +939,11 @@ func (s *fileState) call(t *ast.CallExpr) {
 			}
 		}
 		if path == "sync/atomic" {
-			c.seams.Sync = append(c.seams.Sync, PosNote{Kind: "sync/atomic." + sel.Sel.Name, Pos: c.pos(t.Pos()), Func: s.curFunc()})
+			if isAtomicVerb(sel.Sel.Name) && len(t.Args) >= 1 {
+				s.atomicOp(t, t.Args[0], true, "", "sync/atomic."+sel.Sel.Name)
+			} else {
+				c.seams.Unowned = append(c.seams.Unowned, PosNote{Kind: "sync/atomic." + sel.Sel.Name, Pos: c.pos(t.Pos()), Func: s.curFunc()})
+			}
 		}
 		return
 	}
@@ -930,7 +954,18 @@ func (s *fileState) call(t *ast.CallExpr) {
 			return
 		}
 		switch fn.Pkg().Path() {
-		case "sync":
+		case "reflect":
+			if fn.Name() == "MapRange" {
+				c.seams.Unowned = append(c.seams.Unowned, PosNote{Kind: "reflect.Value.MapRange", Pos: c.pos(t.Pos()), Func: s.curFunc()})
+			}
+			if fn.Name() == "MapKeys" && len(t.Args) == 0 {
+				sid := len(c.seams.RangeSites)
+				c.seams.RangeSites = append(c.seams.RangeSites, RangeSite{ID: sid, Pos: c.pos(t.Pos()), Func: s.curFunc(), MapType: "reflect.Value", Via: "reflect.Value.MapKeys"})
+				xa, xb := c.off(sel.X.Pos()), c.off(sel.X.End())
+				s.add(edit{off: xa, class: 2, extent: c.off(t.End()) - xa + 1, rank: 5, text: fmt.Sprintf("%s.ReflectMapKeys(%d, (", simrtName, sid)})
+				s.add(edit{off: xb, class: 0, extent: xb - xa, rank: 9, text: ")", delTo: c.off(t.Lparen) + 1})
+			}
+		case "sync", "time":
 			recv := fn.Type().(*types.Signature).Recv().Type()
 			rname := types.TypeString(recv, shortQual)
 			rname = strings.TrimPrefix(rname, "*")
@@ -942,6 +977,8 @@ func (s *fileState) call(t *ast.CallExpr) {
 				"sync.WaitGroup.Add": "WGAdd", "sync.WaitGroup.Done": "WGDone", "sync.WaitGroup.Wait": "WGWait",
 				"sync.Once.Do": "OnceDo",
 				"sync.Pool.Get": "PoolGet", "sync.Pool.Put": "PoolPut",
+				"sync.Cond.Wait": "CondWait", "sync.Cond.Signal": "CondSignal", "sync.Cond.Broadcast": "CondBroadcast",
+				"time.Timer.Stop": "TimerStop", "time.Timer.Reset": "TimerReset", "time.Ticker.Stop": "TickerStop", "time.Ticker.Reset": "TickerReset",
 			}
 			if r, ok := repl[key]; ok {
 				// x.Lock() -> zzsimrt.MutexLock(&x) ; x may be addressable value or pointer
@@ -976,9 +1013,24 @@ func (s *fileState) call(t *ast.CallExpr) {
 				c.seams.Sync = append(c.seams.Sync, PosNote{Kind: key, Pos: c.pos(t.Pos()), Func: s.curFunc()})
 				return
 			}
-			c.seams.Unowned = append(c.seams.Unowned, PosNote{Kind: "sync method " + key, Pos: c.pos(t.Pos()), Func: s.curFunc()})
+			if fn.Pkg().Path() == "sync" {
+				c.seams.Unowned = append(c.seams.Unowned, PosNote{Kind: "sync method " + key, Pos: c.pos(t.Pos()), Func: s.curFunc()})
+			}
 		case "sync/atomic":
-			c.seams.Sync = append(c.seams.Sync, PosNote{Kind: "sync/atomic method " + fn.Name(), Pos: c.pos(t.Pos()), Func: s.curFunc()})
+			if !isAtomicVerb(fn.Name()) {
+				break
+			}
+			xt := s.typeOf(sel.X)
+			_, isPtr := coreUnder(xt).(*types.Pointer)
+			path := ""
+			if len(selinfo.Index()) > 1 {
+				path = embeddedPath(xt, selinfo.Index())
+				if path == "" {
+					c.seams.Unowned = append(c.seams.Unowned, PosNote{Kind: "sync/atomic (embedded) method " + fn.Name(), Pos: c.pos(t.Pos()), Func: s.curFunc()})
+					break
+				}
+			}
+			s.atomicOp(t, sel.X, isPtr, path, "sync/atomic method "+fn.Name())
 		}
 	}
 }
@@ -998,6 +1050,126 @@ func embeddedPath(t types.Type, index []int) string {
 		t = f.Type()
 	}
 	return path
+}
+
+// selectStmt rewrites the operands of a select statement (see simrt/sel.go): every channel operand is wrapped, in
+// source order, and every clause body starts with SelDone. The statement itself stays.
+func (s *fileState) selectStmt(t *ast.SelectStmt, hasDefault bool) {
+	c := s.c
+	var comm []*ast.CommClause
+	for _, cl := range t.Body.List {
+		if cc, ok := cl.(*ast.CommClause); ok && cc.Comm != nil {
+			comm = append(comm, cc)
+		}
+	}
+	if len(t.Body.List) == 0 {
+		s.add(edit{off: c.off(t.Pos()), class: 2, extent: 1 << 20, rank: 9, text: simrtName + ".BlockForever(); "})
+		c.seams.Sync = append(c.seams.Sync, PosNote{Kind: "select {}", Pos: c.pos(t.Pos()), Func: s.curFunc()})
+		return
+	}
+	m := len(comm)
+	k := 0
+	for _, cl := range t.Body.List {
+		cc, ok := cl.(*ast.CommClause)
+		if !ok {
+			continue
+		}
+		if cc.Comm == nil {
+			s.add(edit{off: c.off(cc.Colon) + 1, class: 1, text: fmt.Sprintf(" %s.SelDone(-1);", simrtName)})
+			continue
+		}
+		var chanExpr ast.Expr
+		fn := "SelRecv"
+		switch cm := cc.Comm.(type) {
+		case *ast.SendStmt:
+			chanExpr, fn = cm.Chan, "SelSend"
+		case *ast.ExprStmt:
+			if u, ok := unparen(cm.X).(*ast.UnaryExpr); ok && u.Op == token.ARROW {
+				chanExpr = u.X
+			}
+		case *ast.AssignStmt:
+			if len(cm.Rhs) == 1 {
+				if u, ok := unparen(cm.Rhs[0]).(*ast.UnaryExpr); ok && u.Op == token.ARROW {
+					chanExpr = u.X
+				}
+			}
+		}
+		if chanExpr == nil {
+			c.seams.Unowned = append(c.seams.Unowned, PosNote{Kind: "select clause of unknown form", Pos: c.pos(cc.Pos()), Func: s.curFunc()})
+			k++
+			continue
+		}
+		s.wrap(chanExpr, fmt.Sprintf("%s.%s(%d, %v, %d, ", simrtName, fn, m, hasDefault, k), ")", 8)
+		s.add(edit{off: c.off(cc.Colon) + 1, class: 1, text: fmt.Sprintf(" %s.SelDone(%d);", simrtName, k)})
+		k++
+	}
+	kind := "select"
+	if hasDefault {
+		kind = "select with default"
+	}
+	c.seams.Sync = append(c.seams.Sync, PosNote{Kind: kind, Pos: c.pos(t.Pos()), Func: s.curFunc()})
+}
+
+// atomicOp rewrites one sync/atomic operation: recv is the expression that denotes the atomic variable (the receiver
+// of a method, or the first argument of a function, which is already a pointer).
+func (s *fileState) atomicOp(t *ast.CallExpr, recv ast.Expr, isPtr bool, path string, what string) {
+	c := s.c
+	// where does the call stand?
+	form := "value"
+	if n := len(s.stack); n >= 2 {
+		switch p := s.stack[n-2].(type) {
+		case *ast.DeferStmt, *ast.GoStmt:
+			_ = p
+			form = "only"
+		case *ast.ExprStmt:
+			form = "only"
+			if n >= 3 {
+				switch s.stack[n-3].(type) {
+				case *ast.BlockStmt, *ast.CaseClause, *ast.CommClause:
+					form = "stmt"
+				}
+			}
+		}
+	}
+	hasResult := false
+	if tv, ok := s.info.Types[t]; ok && tv.Type != nil {
+		if tup, isTup := tv.Type.(*types.Tuple); !isTup || tup.Len() > 0 {
+			hasResult = true
+		}
+	}
+	if form == "value" && !hasResult {
+		form = "only"
+	}
+	if form == "stmt" && hasResult {
+		form = "value"
+	}
+	pre := "AtPre"
+	if form == "only" {
+		pre = "AtOnly"
+	}
+	amp := "&"
+	if isPtr && path == "" {
+		amp = ""
+	}
+	s.wrap(recv, fmt.Sprintf("%s.%s(%s", simrtName, pre, amp), path+")", 7)
+	switch form {
+	case "value":
+		s.wrap(t, simrtName+".AtVal(", ")", 1)
+	case "stmt":
+		s.add(edit{off: c.off(t.End()), class: 0, extent: 1 << 21, rank: 9, text: "; " + simrtName + ".AtPost()"})
+	}
+	c.seams.Sync = append(c.seams.Sync, PosNote{Kind: what + " (" + form + ")", Pos: c.pos(t.Pos()), Func: s.curFunc()})
+}
+
+var atomicVerbs = []string{"Load", "Store", "Add", "Swap", "CompareAndSwap", "And", "Or"}
+
+func isAtomicVerb(name string) bool {
+	for _, v := range atomicVerbs {
+		if strings.HasPrefix(name, v) {
+			return true
+		}
+	}
+	return false
 }
 
 func (s *fileState) goStmt(t *ast.GoStmt) {
